@@ -144,6 +144,12 @@ def ref_probe(probe, data, base):
         if len(data) < 2:
             raise Reject()
         return data[:2]
+    if probe == "lookahead":
+        # a fixed-size inner format that looks beyond what it consumes: ahead of itself (Peek) and at the region's end (Pointer(-1));
+        # both are confined to the region
+        if len(data) < 1:
+            raise Reject()
+        return {"a": data[0], "ahead": int.from_bytes(data[1:3], "big") if len(data) >= 3 else None, "last": data[-1]}
     if probe in ("offsets", "offsets-root"):
         if len(data) < 1:
             raise Reject()
@@ -183,6 +189,8 @@ def mk_probe(probe):
         return C.Byte
     if probe == "bytes2":
         return C.Bytes(2)
+    if probe == "lookahead":
+        return C.Struct("a" / C.Byte, "ahead" / C.Peek(C.Int16ub), "last" / C.Pointer(-1, C.Byte))
     if probe == "offsets-root":
         # ... plus a Pointer told to work on the outermost stream: that stream must be left exactly where it stood
         return C.Struct("t0" / C.Tell, "r" / C.RawCopy(C.Byte), "p" / C.Pointer(C.this.t0, C.Byte), "q" / C.Pointer(C.this._params.start, C.Byte, stream=C.this._root._io),
@@ -406,7 +414,7 @@ TOEND = ("NullStripped", "OffsettedEnd", "ProcessXor")
 def gen_case(rng, maxdepth):
     depth = rng.randint(1, maxdepth)
     chain = [gen_delim(rng, True) for _ in range(depth)]
-    probe = rng.choice(["greedybytes", "greedyrange", "byte", "bytes2", "offsets", "offsets", "offsets-root", "greedybytes"])
+    probe = rng.choice(["greedybytes", "greedyrange", "byte", "bytes2", "offsets", "offsets", "offsets-root", "greedybytes", "lookahead"])
     cls = rng.choice(["empty", "one", "short", "short", "long"])
     variant_level = rng.randrange(depth) if rng.random() < 0.25 else None
     variant = rng.choice(["overlong", "zero", "overlong"])
@@ -456,7 +464,7 @@ def run(ctx):
             singles.append(["ProcessXor", key, form])
     i = 0
     for D in singles:
-        for probe in ("greedybytes", "greedyrange", "byte", "bytes2", "offsets", "offsets-root"):
+        for probe in ("greedybytes", "greedyrange", "byte", "bytes2", "offsets", "offsets-root", "lookahead"):
             for cls in ("empty", "one", "short", "long"):
                 for variant in ("exact", "overlong", "zero"):
                     i += 1
